@@ -179,6 +179,20 @@ CLAIMED = {
             "Known findings D40 (f64 progress fraction) and D41 (weeks under months across a transition) are listed in "
             "KNOWN_FINDINGS.txt.",
             "TLA+ relational span semantics evaluated by TLC over implementation traces; Round.tla model-checked", "DESIGN.md §5 C11"),
+    "C18": ("model_checking",
+            "Equality of the loading paths is decided by holding every path to the same specification of the same data: the "
+            "C03 / C04 / C14 observations (TzLookup.tla semantics, Trace_Tz.tla) are repeated with each zone loaded through "
+            "TimeZoneDatabase::from_dir, from_concatenated_path (a file assembled in Android's format from the same bytes), "
+            "TimeZoneDatabase::bundled, the tz::get! / tz::include! macros (40 zones compiled into the harness, slim and fat "
+            "zic output of the same rules), TimeZone::tzif in a build with tz-fat compiled out, and POSIX strings after a "
+            "Display / parse round trip; the independent reader always reads the very bytes jiff is given. Name lookups in "
+            "upper, lower and alternating case must return the canonical spelling and an equal zone. The generated copy of "
+            "src/shared in jiff-static is compared token-wise with the original.",
+            "Trusted: the independent readers, zic, TLC. The static macros cover 40 zones (a proc macro needs literal "
+            "paths); the concatenated file is written by the harness from jiff's reading of Android's format. Known finding "
+            "D8 (cross-year POSIX rules) applies through every path and is listed for C18 as well.",
+            "TLA+ zone semantics; traces of every loading back-end validated by TLC against one abstract zone per byte string",
+            "DESIGN.md §5 C18"),
     "C17": ("exploration",
             "Totality cannot be exhausted; it is explored. Mutate.tla specifies the mutation language of the property's "
             "quantifier (14 grammar-aware operators x position x variant); TLC enumerates all 504 one-step plans and samples "
